@@ -1,10 +1,11 @@
 (* C19 -- File-accepting services stay inside their directory and publish atomically.
-   Property theorems only; models in lib/Paths.v, lib/Upload.v, lib/UploadHist.v (+ gen/UploadGen.v translated from the
-   source), proofs in lib/PathsProofs.v, lib/UploadProofs.v, lib/UploadHistProofs.v. *)
+   Property theorems only; models in lib/Paths.v, lib/Upload.v, lib/UploadHist.v, lib/UploadConc.v (+ gen/UploadGen.v translated
+   from the source), proofs in lib/PathsProofs.v, lib/UploadProofs.v, lib/UploadHistProofs.v, lib/UploadConcProofs.v. *)
 From Coq Require Import NArith List Bool.
 Import ListNotations.
 Require Import Verif.lib.UploadShape Verif.gen.UploadGen Verif.lib.Paths Verif.lib.PathsProofs
-               Verif.lib.Upload Verif.lib.UploadProofs Verif.lib.UploadHist Verif.lib.UploadHistProofs.
+               Verif.lib.Upload Verif.lib.UploadProofs Verif.lib.UploadHist Verif.lib.UploadHistProofs
+               Verif.lib.UploadConc Verif.lib.UploadConcProofs.
 
 (* "whatever file or incident name the remote peer supplies": what FilePath.child followed by the parent() test
    lets through is exactly base/<one component>, the component being normpath(name): non-empty, without
@@ -268,3 +269,62 @@ Theorem C19_publisher_symlinks :
      names s p = Some (L t) -> publisher_reads_through_link s cwd base name = true).
 Proof. exact publisher_symlinks. Qed.
 Print Assumptions C19_publisher_symlinks.
+
+(* ======================= a system call of an upload FAILS (errno instead of death) ======================= *)
+
+(* whichever operation of an upload fails -- a failing write takes the _got_error/_err path, any other one raises out of its
+   statement, the handler of the publishing rename still runs --: the final name shows its old entry or the complete file,
+   nothing goes through a link, no other entry changes *)
+Theorem C19_upload_fault_atomic : forall s0 final blocks oc k,
+  Inv s0 -> failed s0 = false -> followed s0 = false ->
+  followed (upload_fault k s0 final blocks oc) = false /\
+  (forall q, q <> final ++ putfile_tmp_ext -> q <> final -> look (upload_fault k s0 final blocks oc) q = look s0 q) /\
+  (look (upload_fault k s0 final blocks oc) final = look s0 final \/
+   (oc = Done /\ look (upload_fault k s0 final blocks oc) final = VFile (concat blocks))).
+Proof. exact upload_fault_atomic. Qed.
+Print Assumptions C19_upload_fault_atomic.
+
+(* ... but "nor a leftover temporary" does not survive a failing f.close() (ENOSPC at flush) in _done or _err: the unlink after
+   it is skipped.  Outside the property's quantifier (source error / disconnect / crash); replayed on the code as an observation *)
+Theorem C19_upload_fault_leftover_refuted :
+  let s0 := mk_st [] [] in
+  let tmp := ex_final ++ putfile_tmp_ext in
+  Inv s0 /\ clean s0 /\
+  nth_error (upload_ops ex_final [[97]]%N SrcError) 3 = Some (Close tmp) /\
+  names (upload_fault 3 s0 ex_final [[97]]%N SrcError) tmp = Some (F 0%nat) /\
+  nth_error (upload_ops ex_final [[97]]%N Done) 3 = Some (Close tmp) /\
+  names (upload_fault 3 s0 ex_final [[97]]%N Done) tmp = Some (F 0%nat) /\
+  names (run s0 (upload_ops ex_final [[97]]%N SrcError)) tmp = None.
+Proof. exact upload_fault_leftover_refuted. Qed.
+Print Assumptions C19_upload_fault_leftover_refuted.
+
+(* ======================= two uploads at the same time (one file system, two file objects) ======================= *)
+
+(* ONE name: A delivers AAAA (buffered), B uploads BBBBBBBB completely and publishes, A finishes: its flush lands in the
+   published inode -- the final name shows AAAABBBB, neither upload's content; A fails (ENOENT), B succeeds.  Known finding
+   oracle/overlapping-uploads-same-name-tear-file; the schedule is replayed on the code and compared with this model. *)
+Theorem C19_concurrent_same_name_refuted :
+  let s := run2 (lift2 (mk_st [] [])) (tear_schedule ex_final [ex_A] [ex_B]) in
+  look2 s ex_final = VFile [65; 65; 65; 65; 66; 66; 66; 66]%N /\
+  look2 s ex_final <> VFile ex_A /\ look2 s ex_final <> VFile ex_B /\
+  fA s = true /\ fB s = false /\ fo2 s = false /\
+  sched (upload_ops ex_final [ex_A] Done) (upload_ops ex_final [ex_B] Done) 6 6 (tear_schedule ex_final [ex_A] [ex_B]).
+Proof. exact concurrent_same_name_refuted. Qed.
+Print Assumptions C19_concurrent_same_name_refuted.
+
+(* DISTINCT names -- the exact guard: final_A, final_A.partial, final_B, final_B.partial pairwise distinct --: for EVERY
+   schedule (each call's operations in order, interleaved arbitrarily, each call cut anywhere, any ending of either block
+   stream) nothing goes through a link, each final name shows its old entry or that call's complete file, and no name
+   outside the four changes.  (lib: concurrent_simulation -- on each call's names the shared file system agrees with that
+   call run ALONE, so all single-upload theorems lift.) *)
+Theorem C19_concurrent_distinct_names : forall s0 fa ba oca fb bb ocb kA kB l,
+  Inv s0 -> failed s0 = false -> followed s0 = false -> handle s0 = None ->
+  fa <> fb -> fa <> fb ++ putfile_tmp_ext -> fb <> fa ++ putfile_tmp_ext ->
+  sched (upload_ops fa ba oca) (upload_ops fb bb ocb) kA kB l ->
+  fo2 (run2 (lift2 s0) l) = false /\
+  (look2 (run2 (lift2 s0) l) fa = look s0 fa \/ (oca = Done /\ look2 (run2 (lift2 s0) l) fa = VFile (concat ba))) /\
+  (look2 (run2 (lift2 s0) l) fb = look s0 fb \/ (ocb = Done /\ look2 (run2 (lift2 s0) l) fb = VFile (concat bb))) /\
+  (forall q, q <> fa -> q <> fa ++ putfile_tmp_ext -> q <> fb -> q <> fb ++ putfile_tmp_ext ->
+     look2 (run2 (lift2 s0) l) q = look s0 q).
+Proof. exact concurrent_distinct_names. Qed.
+Print Assumptions C19_concurrent_distinct_names.
